@@ -7,6 +7,7 @@
 #define protected public
 #include <votca/csg/topology.h>
 #include <votca/csg/interaction.h>
+#include "tools/src/libtools/table.cc"
 #include "csg/src/libcsg/potentialfunctions/potentialfunction.cc"
 #include "csg/src/libcsg/potentialfunctions/potentialfunctionlj126.cc"
 #include "csg/src/libcsg/potentialfunctions/potentialfunctionljg.cc"
@@ -57,6 +58,32 @@ H long h_cbspl(double* out, const double* lam, long nlam, double r, double rmin,
   } catch (...) { return -1; }
 }
 
+// SavePotTab: the table handed to Table::Save is captured (interpreter: model of Table::Save calls verif_capture;
+// native build: the file written by the real Table::Save is read back)
+static double* CAPX; static double* CAPY; static char* CAPF; static long CAPN, CAPCAP;
+H void verif_capture(const votca::tools::Table* t) {
+  CAPN = t->size();
+  for (long k = 0; k < CAPN && k < CAPCAP; k++) { CAPX[k] = t->x_[k]; CAPY[k] = t->y_[k]; CAPF[k] = t->flags_[k]; }
+}
+// which: 0 LJ126, 1 LJG; overload 0: SavePotTab(file, step) over [min_,cut_off_]; 1: SavePotTab(file, step, r0, r1)
+H long h_savepot(double* xs, double* ys, char* fl, long cap, const double* lam, double rmin, double rcut, double step, long which, long overload, double r0, double r1) {
+  CAPX = xs; CAPY = ys; CAPF = fl; CAPN = -1; CAPCAP = cap;
+  std::string fn("verif_pot.tab");
+  try {
+    if (which == 0) {
+      PotentialFunctionLJ126 f("p", rmin, rcut); for (long k = 0; k < 2; k++) f.lam_(k) = lam[k];
+      if (overload == 0) f.SavePotTab(fn, step); else f.SavePotTab(fn, step, r0, r1);
+    } else {
+      PotentialFunctionLJG f("p", rmin, rcut); for (long k = 0; k < 5; k++) f.lam_(k) = lam[k];
+      if (overload == 0) f.SavePotTab(fn, step); else f.SavePotTab(fn, step, r0, r1);
+    }
+  } catch (...) { return -2; }
+#ifdef VERIF_NATIVE
+  { votca::tools::Table t; t.Load(fn); verif_capture(&t); remove(fn.c_str()); }
+#endif
+  return CAPN;
+}
+
 #ifdef VERIF_NATIVE
 // native driver for encoder validation: getDist is supplied by a tiny stand-in that reads a table
 #include <cstdio>
@@ -75,6 +102,13 @@ int main() {
       for (int b = 0; b < 4; b++) for (int k = 0; k < 3; k++) scanf("%la", &POS[b][k]);
       if (!strcmp(cmd, "bond")) h_bond(out, top, bead); else if (!strcmp(cmd, "angle")) h_angle(out, top, bead); else h_dih(out, top, bead);
       printf("%a %a %a %a\n", out[0], out[1], out[2], out[3]);
+    } else if (!strcmp(cmd, "savepot")) {
+      long which, ov; double lam[8], rmin, rcut, step, r0, r1; scanf("%ld %ld", &which, &ov);
+      for (long k = 0; k < (which ? 5 : 2); k++) scanf("%la", &lam[k]);
+      scanf("%la %la %la %la %la", &rmin, &rcut, &step, &r0, &r1);
+      double xs[64], ys[64]; char fl[64];
+      long n = h_savepot(xs, ys, fl, 64, lam, rmin, rcut, step, which, ov, r0, r1);
+      printf("%ld", n); for (long k = 0; k < n && k < 64; k++) printf(" %a %a %c", xs[k], ys[k], fl[k]); printf("\n");
     } else {
       long n, i, j; double lam[16], r, rmin, rcut; scanf("%ld", &n);
       for (long k = 0; k < n; k++) scanf("%la", &lam[k]);
